@@ -18,8 +18,14 @@ namespace yakushima {
 // begin - forward declaration
 // end - forward declaration
 
+/**
+ * @param[out] removed_value_body If not nullptr and the return value is status::OK, this
+ * is filled with the pointer to the value which this call removed (the same pointer get
+ * returned for the key). It can be accessed safely until @a token leaves.
+ */
 [[maybe_unused]] static status remove(Token token, tree_instance* ti, // NOLINT
-                                      std::string_view key_view) {
+                                      std::string_view key_view,
+                                      void** removed_value_body) {
 retry_from_root:
     base_node* root = ti->load_root_ptr();
     if (root == nullptr) {
@@ -143,6 +149,9 @@ retry_fetch_lv:
         }
 
         // success delete
+        if (removed_value_body != nullptr) {
+            *removed_value_body = value::get_body(lv_ptr->get_value());
+        }
         target_border->delete_of<true>(token, ti, key_slice, key_length);
         return status::OK;
     }
@@ -164,6 +173,11 @@ retry_fetch_lv:
         LOG(ERROR) << log_location_prefix << "unexpected process.";
     }
     goto retry_find_border; // NOLINT
+}
+
+[[maybe_unused]] static status remove(Token token, tree_instance* ti, // NOLINT
+                                      std::string_view key_view) {
+    return remove(token, ti, key_view, nullptr);
 }
 
 [[maybe_unused]] static status remove(Token token, // NOLINT
